@@ -1,6 +1,7 @@
 """C16 — Every flux sample is a feasible flux distribution."""
 from contracts import c16_sampling as C
 from contracts import c16_samplers as CX
+from contracts import c16_hrinit as CH
 from props._generic import run_property, replay_with_driver
 
 LEVEL = "other"
@@ -12,7 +13,9 @@ def run(rep):
                  more=[(["HRSampler._random_point", "HRSampler._bounds_dist", "HRSampler._reproject", "ACHRSampler.__single_iteration"], CX.HOOKS),
                        (["ACHRSampler.sample"], CX.HOOKS_S), (["mp_init", "_sample_chain"], CX.HOOKS_C),
                        (["OptGPSampler.sample"], CX.HOOKS_O), (["sampling.sample"], CX.HOOKS_D),
-                       (["HRSampler.validate"], CX.HOOKS_V), (["HRSampler.batch"], CX.HOOKS_B)], explanation=(
+                       (["HRSampler.validate"], CX.HOOKS_V), (["HRSampler.batch"], CX.HOOKS_B),
+                       (["HRSampler.__init__"], CH.HOOKS), (["ACHRSampler.__init__"], CH.HOOKS_SUB),
+                       (["OptGPSampler.__init__"], CH.HOOKS_OPT)], lemmas=CH.lemmas, explanation=(
         "Deductive part (control/data flow only, through the opaque array algebra - numpy operations are uninterpreted functions): "
         "sampling.core.step is proved, on every one of its return paths (direct, or through the recursive retry under its own "
         "contract), to return only a point p for which the guard `not any(sampler._bounds_dist(p) < -sampler.bounds_tol)` was evaluated "
@@ -48,12 +51,44 @@ def run(rep):
         "('v' if f < feasibility_tol and lb > -bounds_tol and ub > -bounds_tol) + ('l' if lb <= -bounds_tol) + ('u' if ub <= -bounds_tol) "
         "+ ('e' if f > feasibility_tol), i.e. 'v' iff feasible, l / u / e exactly for a violated lower bound / upper bound / equality, "
         "1 to 3 letters provided the residual is not EXACTLY the tolerance (there, and for NaN, the code is empty: finding, reproduced "
-        "natively, see contracts/c16_samplers.py)."),
+        "natively, see contracts/c16_samplers.py). "
+        "The CONSTRUCTOR HRSampler.__init__ is proved against its real body (contracts/c16_hrinit.py; no precondition on the arguments; "
+        "the SHAPE of the object model.copy() returns is the assumed contract Model.copy@hrinit: a new model, well-formed reaction DictList, "
+        "reactions attached, solver in step = every reaction's forward / reverse variable is a member of copy.variables, a sequence of "
+        "distinct objects): TypeError for model.solver.is_integer before anything is done; otherwise exactly one model.copy(), self.model IS "
+        "the copy and the argument model is never written; INDEX MAPS: for every i, fwd_idx[i] (rev_idx[i]) is a valid position of the "
+        "solver's variable list and the variable AT that position is the i-th reaction's own forward_variable (reverse_variable) - the "
+        "position_of that object, whatever else the solver holds and in whatever order (np.array of a list of ints by the assumed "
+        "contract numpy.array@intlist); feasibility_tol = bounds_tol = model.tolerance, thinning as given, nproj as given or "
+        "int(min(len(variables)**3, 1e6)), n_samples = retries = 0, warmup None, problem = ONE recorded self.__build_problem() made after "
+        "model / feasibility_tol were set, _seed = seed % (2**31 - 1) resp. int(time()) % (2**31 - 1) (one clock read), in [0, 2**31 - 1): the "
+        "field _sample_chain seeds numpy with. Glue lemmas built from this post-condition and the post-conditions of ACHRSampler.sample / "
+        "OptGPSampler.sample (serial): under the assumed column-selection semantics of A[:, idx] and entry-wise `-`, column i of the "
+        "returned frame is CELL(samples, k, position_of(forward variable of reaction i)) - CELL(samples, k, position_of(reverse variable "
+        "of reaction i)), the two positions are different valid positions, and the column is labelled with reaction i's id (hypothesis: "
+        "no method between the constructor and sample writes fwd_idx / rev_idx / model); and what sampling.sample assumes of a new sampler "
+        "(thinning, n_samples = 0, private copy with a well-formed reaction list, nproj >= 1 given one solver variable) follows from the "
+        "constructor's post-condition. The SUBCLASS constructors are proved too, with super().__init__(model, thinning, nproj=nproj, seed=seed) "
+        "applied by the proved contract at the call site (so every clause above holds for the new ACHR / OptGP sampler, the arguments "
+        "being passed on unchanged) and generate_fva_warmup() a RECORDED call (sets warmup / n_warmup or raises ValueError; made once, after "
+        "all HRSampler fields exist, none of fwd_idx / rev_idx / model / problem / _seed written afterwards): ACHRSampler.__init__ sets prev = "
+        "center = warmup.mean(axis=0) and calls np.random.seed exactly once with the STORED self._seed (the reproducibility clause); "
+        "OptGPSampler.__init__ sets processes = the argument, or configuration.processes when None, center = shared_np_array((len("
+        "model.variables),), warmup.mean(axis=0)) and does NOT seed numpy (every chain seeds itself, see _sample_chain). sampling.sample's "
+        "dispatch hook still creates the new sampler by the assumed interface contract HRSampler.__init__@samplers (its facts are the ones "
+        "proved here; the lemma above)."),
         trusted=["numpy operations are pure deterministic functions of their arguments (opaque algebra)", "floating point",
                  "SVD null space", "multiprocessing.Pool.map is ordered and runs each task once in a worker initialised on a private copy "
                  "(assumed contract Pool.map)", "float division n / processes and np.ceil are exact (operands below 2**53)",
                  "two arrays that differ in no element are the same point (NaN-free; used for _reproject)",
-                 "sampler constructors (assumed contract HRSampler.__init__@samplers)",
+                 "the sampler object sampling.sample's dispatch hook creates (assumed interface contract HRSampler.__init__@samplers: thinning / processes "
+                 "as given, n_samples = 0, nproj >= 1, private copy with a well-formed reaction list - each proved for the three constructors in "
+                 "contracts/c16_hrinit.py, nproj >= 1 given one solver variable)",
+                 "generate_fva_warmup sets warmup / n_warmup or raises ValueError (recorded call); configuration.processes, shared_np_array opaque",
+                 "the shape of model.copy() for the sampler: new object, well-formed reactions attached to a model, solver in step (forward / reverse "
+                 "variables are members of copy.variables), distinct variable objects (assumed contract Model.copy@hrinit)",
+                 "np.array(<list of ints>)[i] = list[i] (assumed contract numpy.array@intlist); A[:, idx] selects column idx[i] as column i and "
+                 "`-` acts entry by entry (hypotheses of the glue lemmas)", "time() returns a float, int() truncates, np.iinfo(np.int32).max = 2**31 - 1",
                  "row-wise semantics of <, <=, >, unary -, &, mask assignment and np.char.add (assumed contract numpy.rowwise; validate)",
                  "np.random draws are a deterministic function of the last seed and the draw sequence (reproducibility)"])
 
